@@ -38,7 +38,7 @@ def W(n, m):
         M = np.zeros((n + 1, m + 1))
         for i in range(n + 1):
             for j in range(max(0, m - (n - i)), min(i, m) + 1):
-                M[i, j] = float(hyp_exact(m, n, i, j))
+                M[i, j] = (math.comb(m, j) * math.comb(n - m, i - j)) / math.comb(n, i)   # int/int: correctly rounded
         if len(_W) > 4000:
             _W.clear()
         _W[k] = M
@@ -665,7 +665,7 @@ def l3_lowpass_history(chk, ctx, rng, count):
             n = 2 * int(rng.integers(1, 10)); m = 2 * int(rng.integers(1, n // 2 + 1))
             if (n, m) not in used: break
         used.add((n, m))
-        Fs = [float(f) for f in rng.choice([0.05, 0.25, 0.5, 0.9, 1.0], size=2, replace=False)]
+        Fs = [float(f) for f in rng.choice([0.05, 0.25, 0.5, 0.75, 0.9], size=2, replace=False)]
         n2 = 2 * int(rng.integers(1, 8)); m2 = 2 * int(rng.integers(1, n2 // 2 + 1))
         pattern = [['F', '0'], ['F', 'G', '0'], ['F', 'other', '0'], ['0', 'F', '0'], ['F', '0', 'F', '0'], ['otherF', 'F', '0', 'other0']][it % 6]
         history = []; firstF = {}
@@ -761,6 +761,249 @@ def l3_attrs(chk, ctx, rng, count):
         if not ok:
             chk.fail('project:ns-type', 'result depends on the container type of ns: %s' % what, inp)
 
+
+# --------------------------------------------------------------------------- history: cache soundness, data dictionaries
+def cache_soundness(chk, ctx, after, limit=None, rng=None):
+    """every row stored in `Numerics._projection_cache` is still the hypergeometric row of its key (nothing that used the
+    cache wrote into it).  `after` names the family of operations that ran just before."""
+    N = ctx['dadi'].Numerics
+    items = [(k, v) for k, v in list(N._projection_cache.items())
+             if isinstance(k, tuple) and len(k) == 3 and all(isinstance(x, (int, np.integer)) for x in k)]
+    if limit is not None and len(items) > limit and rng is not None:
+        items = [items[int(t)] for t in rng.permutation(len(items))[:limit]]
+    nbad = 0
+    for (m, n, i), row in items:
+        m, n, i = int(m), int(n), int(i)
+        if m < 0 or n < 0 or i < 0 or i > max(n, 0):
+            continue
+        ex = W(n, m)[i] if n >= m else np.zeros(m + 1)
+        row = np.asarray(row, dtype=float)
+        if row.shape != ex.shape or not np.all(np.isfinite(row)) or float(np.max(np.abs(row - ex))) > RTOL * max(float(np.max(ex)), 1e-300):
+            nbad += 1
+            if nbad <= 3:
+                chk.fail('_projection_cache:corrupted', 'after %s the cached row for (proj_to=%d, proj_from=%d, hits=%d) is %r, the hypergeometric row is %r'
+                         % (after, m, n, i, row.tolist()[:8], ex.tolist()[:8]), dict(kind='cache', m=m, n=n, i=i, after=after))
+    chk.l3(('cache-sound', after)); chk.stat('cache_rows_reverified', len(items))
+    return nbad
+
+def make_dd(spec):
+    """data dictionary from the compact description: snps = [[(a1, a2) per pop, outgroup in {0, 1, None}, repeat], ...]"""
+    dd = {}; k = 0
+    for calls, og, rep in spec['snps']:
+        for _ in range(int(rep)):
+            e = {'segregating': ('A', 'T'), 'calls': {p: (int(c[0]), int(c[1])) for p, c in zip(spec['pops'], calls)}}
+            if og is not None:
+                e['outgroup_allele'] = 'AT'[int(og)]
+            else:
+                e['outgroup_allele'] = '-'
+            dd['snp%d' % k] = e; k += 1
+    return dd
+
+def dd_expected(spec, polarized_only):
+    """Σ over SNPs of the product over populations of the hypergeometric row (called -> projection); SNPs with fewer calls than
+    the projection contribute nothing"""
+    proj = [int(m) for m in spec['projections']]
+    out = np.zeros([m + 1 for m in proj])
+    for calls, og, rep in spec['snps']:
+        if polarized_only and og is None:
+            continue
+        o = 0 if og is None else int(og)            # unpolarized: the first allele plays the outgroup
+        term = np.ones([1] * len(proj))
+        for ax, (c, m) in enumerate(zip(calls, proj)):
+            called = int(c[0]) + int(c[1]); derived = int(c[1 - o])
+            row = W(called, m)[derived] if called >= m else np.zeros(m + 1)
+            sh = [1] * len(proj); sh[ax] = m + 1
+            term = term * row.reshape(sh)
+        out += int(rep) * term
+    return out
+
+def datadict_sequence(chk, ctx, spec):
+    """build the same spectrum twice, build it folded, then project ordinary spectra with the same (from, to) sizes and re-verify the
+    cache rows the builds used: nothing may depend on what was built before"""
+    dadi = ctx['dadi']; N = dadi.Numerics
+    pops = list(spec['pops']); proj = [int(m) for m in spec['projections']]
+    inp = dict(kind='datadict', pops=pops, projections=proj, snps=spec['snps'], cold=bool(spec.get('cold')))
+    if spec.get('cold'):
+        N._projection_cache.clear()
+    dd = make_dd(spec)
+    ex = dd_expected(spec, True); ex_all = dd_expected(spec, False)
+    scale = max(float(np.max(np.abs(ex_all))), 1e-300)
+    key = ('datadict', len(pops), max(int(r) for _, _, r in spec['snps']) > 1, bool(spec.get('cold')))
+    builds = []
+    for rep in range(2):
+        try:
+            fs = dadi.Spectrum.from_data_dict(dd, pops, proj, mask_corners=bool(rep))
+        except Exception as e:
+            chk.fail('from_data_dict:raises:%s' % type(e).__name__, 'from_data_dict raises %r' % (e,), inp); return
+        chk.l3(key + (rep,))
+        d = np.asarray(fs.data, dtype=float)
+        if d.shape != ex.shape or float(np.max(np.abs(d - ex))) > RTOL * scale:
+            chk.fail('from_data_dict:value' if rep == 0 else 'from_data_dict:history',
+                     'build no. %d of the same data dictionary (projections %r) differs from Σ_SNP hypergeometric rows by %.3g (scale %.3g; total %r, expected %r)'
+                     % (rep + 1, proj, float(np.max(np.abs(d - ex))) if d.shape == ex.shape else float('inf'), scale, float(d.sum()), float(ex.sum())), inp)
+        builds.append(d)
+    try:
+        cd = dadi.Misc.count_data_dict(dd, pops)
+        for rep in range(2):
+            ff = dadi.Spectrum._from_count_dict(cd, proj, polarized=False, pop_ids=pops)
+            ref = dadi.Spectrum(ex_all, mask_corners=False).fold()
+            um = ~(np.array(np.ma.getmaskarray(ff)) | np.array(np.ma.getmaskarray(ref)))
+            chk.l3(key + ('folded', rep))
+            if not ff.folded or ff.shape != ref.shape or (um.any() and float(np.max(np.abs(np.asarray(ff.data)[um] - np.asarray(ref.data)[um]))) > RTOL * scale):
+                chk.fail('from_count_dict:folded', 'unpolarized build no. %d differs from fold(Σ_SNP hypergeometric rows)' % (rep + 1), inp)
+    except Exception as e:
+        chk.fail('from_count_dict:raises:%s' % type(e).__name__, '_from_count_dict(polarized=False) raises %r' % (e,), inp)
+    # ordinary projections that share cache rows with the builds
+    for ax, m in enumerate(proj):
+        for called in sorted(set(int(c[ax][0]) + int(c[ax][1]) for c, _, _ in spec['snps'])):
+            if called < m or called < 1 or m < 1:
+                continue
+            x = np.arange(1, called + 2, dtype=float) * 0.5 + (np.arange(called + 1) % 3)
+            try:
+                p = np.asarray(dadi.Spectrum(x, mask_corners=False).project([m]).data, dtype=float)
+            except Exception as e:
+                chk.fail('project:raises:%s' % type(e).__name__, 'project([%d]) from n=%d after from_data_dict raises %r' % (m, called, e), inp); continue
+            chk.l3(('project-after-datadict', called, m))
+            e2 = x.dot(W(called, m))
+            if float(np.max(np.abs(p - e2))) > RTOL * float(np.max(np.abs(e2))):
+                chk.fail('project:after-from_data_dict', 'Spectrum.project([%d]) of a 1-D spectrum with n=%d, called after from_data_dict with the same sizes, '
+                         'is not the hypergeometric projection (max error %.3g; total %r -> %r)' % (m, called, float(np.max(np.abs(p - e2))), float(x.sum()), float(p.sum())), inp)
+            for h in range(called + 1):
+                row = np.asarray(N._cached_projection(m, called, h), dtype=float)
+                if float(np.max(np.abs(row - W(called, m)[h]))) > RTOL:
+                    chk.fail('_projection_cache:corrupted', 'after from_data_dict (projections %r) _cached_projection(%d,%d,%d) returns %r, hypergeometric row is %r'
+                             % (proj, m, called, h, row.tolist()[:8], W(called, m)[h].tolist()[:8]), inp)
+                    break
+    chk.stat('datadict:%dpop' % len(pops))
+
+def gen_dd_spec(rng, npop):
+    pops = ['P%d' % k for k in range(npop)]
+    sizes = [int(rng.integers(2, 25 if npop == 1 else 11)) for _ in pops]
+    proj = [int(rng.integers(1, n + 1)) for n in sizes]
+    snps = []
+    for _ in range(int(rng.integers(2, 9))):
+        calls = []
+        for n, m in zip(sizes, proj):
+            r = rng.random()
+            called = n if r < 0.55 else (max(1, n - int(rng.integers(1, 3))) if r < 0.9 else max(0, m - 1))     # some SNPs with too few calls
+            a2 = int(rng.integers(0, called + 1))
+            calls.append([called - a2, a2])
+        og = [0, 0, 1, None][int(rng.integers(4))]
+        rep = [1, 2, 3, 7][int(rng.integers(4))]                                                              # count > 1: repeated configuration
+        snps.append([calls, og, rep])
+    if not any(og is not None and rep > 1 for _, og, rep in snps):
+        snps[0][1] = 0; snps[0][2] = 5
+    return dict(pops=pops, projections=proj, snps=snps, cold=bool(rng.random() < 0.5))
+
+def l3_data_dict_history(chk, ctx, rng, count):
+    for it in range(count):
+        spec = gen_dd_spec(rng, 1 if it % 3 != 2 else 2 + (it // 3) % 2)
+        datadict_sequence(chk, ctx, spec)
+
+# --------------------------------------------------------------------------- LowPass with inbreeding: subsampling individuals
+def inbreeding_exact(partition, k):
+    """distribution of the derived count among k/2 individuals drawn without replacement from the individuals whose genotypes
+    (0/1/2 derived copies) are listed in `partition`: multivariate hypergeometric over the genotype classes"""
+    c = [sum(1 for g in partition if g == v) for v in (0, 1, 2)]
+    N = len(partition); r = k // 2
+    out = np.zeros(k + 1)
+    tot = math.comb(N, r)
+    for a1 in range(min(c[1], r) + 1):
+        for a2 in range(min(c[2], r - a1) + 1):
+            a0 = r - a1 - a2
+            if a0 > c[0]:
+                continue
+            out[a1 + 2 * a2] += (math.comb(c[0], a0) * math.comb(c[1], a1) * math.comb(c[2], a2)) / tot
+    return out
+
+def geno_probs(p, F):
+    return [(1 - p) ** 2 + F * p * (1 - p), 2 * p * (1 - p) * (1 - F), p ** 2 + F * p * (1 - p)]
+
+def lowpass_F_exact(n, m, F):
+    """row i: genotype counts (c0,c1,c2) of n/2 individuals carrying i derived copies, weighted by the multinomial probability under
+    inbreeding coefficient F at allele frequency i/n, each followed by drawing m/2 individuals without replacement"""
+    ni = n // 2
+    M = np.zeros((n + 1, m + 1))
+    for i in range(n + 1):
+        gp = geno_probs(i / n, F)
+        tot = 0.0; row = np.zeros(m + 1)
+        for c2 in range(i // 2 + 1):
+            c1 = i - 2 * c2; c0 = ni - c1 - c2
+            if c0 < 0:
+                continue
+            w = math.comb(ni, c2) * math.comb(ni - c2, c1)
+            if 0 < i < n:
+                w *= gp[0] ** c0 * gp[1] ** c1 * gp[2] ** c2
+            if w == 0:
+                continue
+            tot += w
+            row += w * inbreeding_exact([0] * c0 + [1] * c1 + [2] * c2, m)
+        M[i] = row / tot
+    return M
+
+def check_inbreeding_case(chk, ctx, LP, partition, k):
+    inp = dict(kind='inbreeding', partition=[int(g) for g in partition], k=int(k))
+    try:
+        got = np.asarray(LP.projection_inbreeding(tuple(partition) if len(partition) % 2 else list(partition), k), dtype=float)
+    except Exception as e:
+        chk.fail('LowPass.projection_inbreeding:raises:%s' % type(e).__name__, 'projection_inbreeding(%r, %d) raises %r' % (list(partition), k, e), inp); return
+    ex = inbreeding_exact(partition, k)
+    chk.l3(('inbreeding', len(partition), k, tuple(sum(1 for g in partition if g == v) for v in (0, 1, 2))))
+    if got.shape != ex.shape or float(np.max(np.abs(got - ex))) > RTOL:
+        chk.fail('LowPass.projection_inbreeding:value', 'projection_inbreeding(%r, %d) = %r; drawing %d of the %d individuals without replacement gives %r'
+                 % (list(partition), k, got.tolist(), k // 2, len(partition), ex.tolist()), inp)
+
+def check_lowpass_F(chk, ctx, LP, n, m, F):
+    inp = dict(kind='lowpassF', n=int(n), m=int(m), F=float(F))
+    try:
+        M = np.asarray(LP.projection_matrix(n, m, F), dtype=float)
+    except Exception as e:
+        chk.fail('LowPass.projection_matrix:raises:%s' % type(e).__name__, 'projection_matrix(%d,%d,%g) raises %r' % (n, m, F, e), inp); return
+    chk.l3(('lowpassF', n, m, F))
+    if M.shape != (n + 1, m + 1) or not np.all(np.isfinite(M)):
+        chk.fail('LowPass.projection_matrix:F:shape', 'projection_matrix(%d,%d,%g) has shape %r / non-finite entries' % (n, m, F, M.shape), inp); return
+    if float(np.max(np.abs(M.sum(axis=1) - 1))) > 1e-9:
+        chk.fail('LowPass.projection_matrix:F:rowsum', 'rows of projection_matrix(%d,%d,%g) do not sum to 1' % (n, m, F), inp)
+    mean = M.dot(np.arange(m + 1)); exm = np.arange(n + 1) * m / n
+    if float(np.max(np.abs(mean - exm))) > 1e-9 * m:
+        i = int(np.argmax(np.abs(mean - exm)))
+        chk.fail('LowPass.projection_matrix:F:mean', 'projection_matrix(%d,%d,F=%g): subsampling individuals must keep the mean allele frequency; row %d has mean %r, expected %r'
+                 % (n, m, F, i, float(mean[i]), float(exm[i])), inp)
+    ref = lowpass_F_exact(n, m, F)
+    if float(np.max(np.abs(M - ref))) > RTOL:
+        i, j = np.unravel_index(int(np.argmax(np.abs(M - ref))), M.shape)
+        chk.fail('LowPass.projection_matrix:F:value', 'projection_matrix(%d,%d,F=%g) entry [%d,%d] is %r; drawing %d of %d individuals without replacement gives %r'
+                 % (n, m, F, i, j, float(M[i, j]), m // 2, n // 2, float(ref[i, j])), inp)
+
+def l3_inbreeding(chk, ctx, rng, count):
+    """`projection_inbreeding(partition, k)` against the multivariate-hypergeometric closed form (partitions with repeated
+    genotypes: every partition of more than 3 individuals has them), and `projection_matrix(n, m, F > 0)` with m < n, m = n/2, m = n"""
+    LP = _lowpass(chk)
+    if LP is None:
+        return
+    dadi = ctx['dadi']
+    fixed = [([0, 0, 2], 2), ([0, 1, 1, 2], 2), ([0, 0, 0, 0], 4), ([1, 1, 1, 1, 1], 6), ([2, 2, 0], 4), ([0, 1, 2], 6), ([1], 2), ([0, 2, 2, 2, 1, 1], 8)]
+    for part, k in fixed:
+        check_inbreeding_case(chk, ctx, LP, part, k)
+    for it in range(count):
+        N = int(rng.integers(1, 11))
+        if it % 3 == 0:
+            af = int(rng.integers(0, 2 * N + 1))
+            parts = dadi.Numerics.cached_part(af, N)         # the partitions projection_matrix feeds it
+            part = list(parts[int(rng.integers(len(parts)))])
+        else:
+            part = [int(g) for g in rng.choice([0, 1, 2], size=N, p=[[.5, .3, .2], [.2, .2, .6], [.34, .33, .33]][it % 3])]
+        k = 2 * int(rng.integers(1, N + 1))
+        check_inbreeding_case(chk, ctx, LP, part, k)
+    pairs = [(8, 4), (8, 6), (12, 6), (8, 8), (12, 4), (4, 2), (6, 2), (10, 8)]
+    for it in range(max(8, count // 3)):
+        if it < len(pairs):
+            n, m = pairs[it]
+        else:
+            n = 2 * int(rng.integers(1, 10)); m = 2 * int(rng.integers(1, n // 2 + 1))
+        F = [0.25, 0.6, 0.9, 0.05, 0.5][it % 5]          # 0 < F < 1 (F = 1 makes odd allele counts impossible: 0/0 in the code, not C08's business)
+        check_lowpass_F(chk, ctx, LP, n, m, F)
+
 # --------------------------------------------------------------------------- entry points
 def run(chk, ctx):
     tier = ctx['tier']
@@ -781,6 +1024,9 @@ def run(chk, ctx):
     sample_weights(chk, ctx, rng, 150 if tier == 'quick' else 1500, nmax + 1, 200)
     upward_rows(chk, ctx, rng, 40 if tier == 'quick' else 300)
     window_tie(chk, ctx, rng, 100 if tier == 'quick' else 1000)
+    cache_soundness(chk, ctx, 'the weight sweeps')
+    l3_data_dict_history(chk, ctx, rng, 18 if tier == 'quick' else 90)
+    cache_soundness(chk, ctx, 'from_data_dict / _from_count_dict builds')
     ncase = 160 if tier == 'quick' else 700
     for it in range(ncase):
         c = gen_case(rng, tier)
@@ -803,13 +1049,19 @@ def run(chk, ctx):
         c = gen_case(rng, tier, folded=False)
         c['axis'] = int(rng.integers(c['d']))
         check_one_axis_case(chk, ctx, c)
+    cache_soundness(chk, ctx, 'Spectrum.project / _project_one_axis')
     check_refusals(chk, ctx, rng, 36 if tier == 'quick' else 240)
     l3_compose_and_order(chk, ctx, rng, 100 if tier == 'quick' else 600)
     l3_neutral(chk, ctx, rng, 42 if tier == 'quick' else 280)
+    cache_soundness(chk, ctx, 'refusals, two-stage / axis-order projections, neutral spectra')
     l3_lowpass_history(chk, ctx, rng, 24 if tier == 'quick' else 120)     # before any plain F = 0 call touches these sizes
     l3_lowpass(chk, ctx, rng, 30 if tier == 'quick' else 200)
     order_weights(chk, ctx, rng, 12 if tier == 'quick' else 20)
+    l3_inbreeding(chk, ctx, rng, 60 if tier == 'quick' else 400)
+    cache_soundness(chk, ctx, 'LowPass.projection_matrix / projection_inbreeding')
     l3_attrs(chk, ctx, rng, 18 if tier == 'quick' else 90)
+    l3_data_dict_history(chk, ctx, rng, 6 if tier == 'quick' else 30)     # once more on a warm cache
+    cache_soundness(chk, ctx, 'the whole run')
     chk.stats['exhaustive'] = True
     chk.assumptions += ['exhaustive: true for the weight table 1 <= m <= n <= %d (every i, every j)' % nmax]
 
@@ -827,6 +1079,12 @@ def replay(chk, ctx, data):
         ctx['dadi'].Numerics._projection_cache.clear()
         chk.l3(('weights', n, m))
         check_row(chk, ctx['dadi'], m, n, i, model)
+    elif kind == 'datadict':
+        datadict_sequence(chk, ctx, inp)
+    elif kind == 'inbreeding':
+        check_inbreeding_case(chk, ctx, _lowpass(chk), list(inp['partition']), int(inp['k']))
+    elif kind == 'lowpassF':
+        check_lowpass_F(chk, ctx, _lowpass(chk), int(inp['n']), int(inp['m']), float(inp['F']))
     elif kind == 'lowpass':
         LP = _lowpass(chk)
         hist = [tuple(h) for h in inp.get('history', [])]
